@@ -121,7 +121,10 @@ fn query(r: &mut Rng) -> (String, &'static str) {
         13 | 14 => ((*r.pick(&["* | json", "* | json | sort by n", "* | json | sort by n desc | limit 3", "* | json | fields except n", "* | json | count by n | sort by n"])).to_string(), "near-equal-field-names"),
         0 => ("* | json".into(), "nested-object-key-order"),
         1 => ("* | json | fields o, m, k".into(), "nested-object-key-order"),
-        2 => (format!("* | json | {} | where _count > 0", "count by k"), "agg-then-row-operator"),
+        // keys that are not bare column names (computed, nested, escaped): the emitted rows carry
+        // them under the key's text, and the stage after the aggregation sees the groups in the
+        // order the aggregation emits them
+        2 | 15 => ((*r.pick(&["* | json | count by k | where _count > 0", "* | json | count by n > 1, k | where _count > 0", "* | json | count by n + 0, b | total(_count) as t", "* | json | count, sum(n) by length(s), k | _count + 1 as c1", "* | json | count by n % 3 == 0, k, b | fields except b", "* | json | count by o.a, k | where _count > 0", "* | json | count by [\"k\"], n > 0 | total(_count) as t", "* | json | count by k == \"a\", n | count by _count | where _count > 0"])).to_string(), "agg-then-row-operator"),
         3 => ("* | json | count, sum(n) by k, b | _count + 1 as c1 | n as z".into(), "agg-then-row-operator"),
         4 => ("* | json | count by msg | parse \"* user=* took *ms status=*\" from msg as verb, user, ms, status nodrop".into(), "adapter-new-columns"),
         5 => ("* | json | count by s | parse \"*\" from s as p1 nodrop | total(_count) as t".into(), "agg-then-row-operator"),
